@@ -2992,7 +2992,7 @@ func rulePageOwnGeometry(c *eng.Ctx) {
 // R2.14 [C02, C04, C03]
 func ruleMarkUnmarkBalance(c *eng.Ctx) {
 	const R = "R2.14-MARK-UNMARK-BALANCE"
-	c.Rule(R, "an in-progress mark (a key put into a map of the receiver that the same function also deletes: the path of the current resolution) is taken back on every path from the mark to a return, explicitly or by a deferred function: a mark left behind by an error return makes the next, unrelated lookup of that object report a cycle", 2, 0)
+	c.Rule(R, "an in-progress mark (a key put into a map of the receiver that the same function also deletes: the path of the current resolution) is taken back on every path from the mark to a return, explicitly or by a deferred function: a mark left behind by an error return makes the next, unrelated lookup of that object report a cycle (a set kept in another representation than a map - a sorted slice with add and remove methods - is outside this rule)", 1, 0)
 	mapRoot := func(v ssa.Value) string {
 		if fr, ok := eng.LoadOfField(v); ok {
 			return fr.Struct + "." + fr.Field
